@@ -102,7 +102,7 @@ func NewHostnameResults(ctx context.Context, l *slog.Logger, d time.Duration, ne
 		}
 
 		// Save the IP address immediately
-		ips[netip.AddrPortFrom(addr, uint16(iPort))] = struct{}{}
+		ips[netip.AddrPortFrom(addr.Unmap(), uint16(iPort))] = struct{}{}
 	}
 	r.ips.Store(&ips)
 
